@@ -26,7 +26,7 @@ theorem step_skip (cb : Cbs) (mk : UInt8) (p r : Bytes) (d : Nat)
     (hwf : (Seg.skip mk p).wf) (hr : 64 ≤ r.length) (hd : d + (Seg.skip mk p).encode.length < 2 ^ 32) :
     step cb { rest := (Seg.skip mk p).encode ++ r, discarded := d, pos := 1 } =
       .next { rest := r, discarded := d + (Seg.skip mk p).encode.length, pos := 1 } [] := by
-  obtain ⟨hlen, h1, h2, h3, h4, h5⟩ := hwf
+  obtain ⟨hlen, h1, h2, h3, h4, h5, h6⟩ := hwf
   have hsz := be16_size (p.length + 2) hlen
   have henc : (Seg.skip mk p).encode.length = p.length + 4 := by simp [Seg.encode, be16]
   have hrest : (Seg.skip mk p).encode ++ r =
@@ -39,11 +39,12 @@ theorem step_skip (cb : Cbs) (mk : UInt8) (p r : Bytes) (d : Nat)
   have e2 : (mk == 0xD9) = false := by simpa using h2
   have e3 : (mk == 0xDB) = false := by simpa using h3
   have e4 : (mk == 0xDD) = false := by simpa using h4
+  have e0 : (mk == 0xFF) = false := by simpa using h6
   have hcast : ((p.length + 2 + 2 : Nat) : Int) = ((p.length + 4 : Nat) : Int) := by omega
   unfold step
   dsimp only
   rw [if_neg (by simp only [List.length_cons, List.length_append]; omega)]
-  simp only [show ((0xFF : UInt8) != 0xFF) = false by decide, Bool.false_eq_true, if_false, e1, e2, e3, e4, hsz]
+  simp only [show ((0xFF : UInt8) != 0xFF) = false by decide, Bool.false_eq_true, if_false, e0, e1, e2, e3, e4, hsz]
   rw [if_neg (by decide : ¬ (1 : Nat) = 0)]
   have hfin : finish (discard { rest := 0xFF :: mk :: UInt8.ofNat ((p.length + 2) / 256) :: UInt8.ofNat ((p.length + 2) % 256) :: (p ++ r), discarded := d, pos := 1 } (((p.length + 2 : Nat) : Int) + 2)) [] =
       .next { rest := r, discarded := d + (p.length + 4), pos := 1 } [] := by
@@ -82,7 +83,7 @@ theorem step_dri (cb : Cbs) (a b : UInt8) (r : Bytes) (d : Nat)
   dsimp only
   rw [if_neg (by simp only [List.length_cons]; omega)]
   simp only [show ((0xFF : UInt8) != 0xFF) = false by decide, Bool.false_eq_true, if_false,
-    show ((0xDD : UInt8) == 0xD8) = false by decide, show ((0xDD : UInt8) == 0xD9) = false by decide,
+    show ((0xDD : UInt8) == 0xFF) = false by decide, show ((0xDD : UInt8) == 0xD8) = false by decide, show ((0xDD : UInt8) == 0xD9) = false by decide,
     show ((0xDD : UInt8) == 0xDB) = false by decide, show ((0xDD : UInt8) == 0xDD) = true by decide, if_true]
   rw [if_neg (by decide : ¬ (1 : Nat) = 0)]
   rw [if_neg (by decide), if_neg (by decide)]
@@ -112,7 +113,7 @@ theorem step_exif (cb : Cbs) (t r : Bytes) (d : Nat) (hcb : cb.wellBehaved)
   dsimp only
   rw [if_neg (by simp only [List.length_cons, List.length_append]; omega)]
   simp only [show ((0xFF : UInt8) != 0xFF) = false by decide, Bool.false_eq_true, if_false,
-    show ((0xE1 : UInt8) == 0xD8) = false by decide, hsz]
+    show ((0xE1 : UInt8) == 0xFF) = false by decide, show ((0xE1 : UInt8) == 0xD8) = false by decide, hsz]
   rw [if_neg (by decide : ¬ (1 : Nat) = 0)]
   rw [if_neg (by decide), if_pos (by decide)]
   simp only [show ((0xE1 : UInt8) == 0xE1) = true by decide, if_true, List.drop_succ_cons, List.drop_zero,
@@ -165,7 +166,7 @@ theorem step_xmp (cb : Cbs) (k r : Bytes) (d : Nat) (hcb : cb.wellBehaved)
   dsimp only
   rw [if_neg (by simp only [List.length_cons, List.length_append, xmpPrefix_length]; omega)]
   simp only [show ((0xFF : UInt8) != 0xFF) = false by decide, Bool.false_eq_true, if_false,
-    show ((0xE1 : UInt8) == 0xD8) = false by decide, hsz]
+    show ((0xE1 : UInt8) == 0xFF) = false by decide, show ((0xE1 : UInt8) == 0xD8) = false by decide, hsz]
   rw [if_neg (by decide : ¬ (1 : Nat) = 0)]
   rw [if_neg (by decide), if_pos (by decide)]
   simp only [show ((0xE1 : UInt8) == 0xE1) = true by decide, if_true, List.drop_succ_cons, List.drop_zero, t6, t29,
